@@ -11,6 +11,8 @@
 -/
 import Vita.C20.Sim
 import Vita.C20.Legacy
+import Vita.C20.Denote
+import Vita.C20.Gen
 
 namespace Vita.C20
 
@@ -102,6 +104,81 @@ theorem operator_eq_is_not_representation_eq :
     vecEq eq [1, 12] [11, 2] = true ∧ ([1, 12] : List Nat) ≠ [11, 2] ∧
     vecEq eq [7] [7] = false ∧ vecCmp eq (fun a b => decide (a < b)) .ne [7] [7] = true := by
   decide
+
+/-! ### tie to the source: the skeletons extracted from the clang AST (Gen.lean, regenerated on every run)
+    are the skeletons the hand model implements (Skeleton.lean), function by function -/
+
+/-- no function was added to / removed from small_vector.{h,tcc} -/
+theorem functions_known : Gen.functions = Skeleton.functions := by rfl
+
+/-- constructors, destructor, `clear`, `free_heap_memory` -/
+theorem skeleton_ctor_dtor :
+    Gen.ctorNSk = Skeleton.ctorNSk ∧ Gen.ctorNXSk = Skeleton.ctorNXSk ∧
+    Gen.ctorListSk = Skeleton.ctorListSk ∧ Gen.ctorCopySk = Skeleton.ctorCopySk ∧
+    Gen.ctorMoveSk = Skeleton.ctorMoveSk ∧ Gen.dtorSk = Skeleton.dtorSk ∧
+    Gen.clearSk = Skeleton.clearSk ∧
+    Gen.free_heap_memorySk = Skeleton.free_heap_memorySk := by
+  repeat' constructor
+
+/-- both assignment operators: conditions (`this != &rhs`, `needs_memory`, `is_trivially…`,
+    `local_storage_used()`, `n <= S`) and the primitive calls of every branch -/
+theorem skeleton_assign :
+    Gen.assignCopySk = Skeleton.assignCopySk ∧
+    Gen.assignMoveSk = Skeleton.assignMoveSk := by
+  repeat' constructor
+
+/-- `push_back`, `emplace_back`, `append`, `insert` (append case, empty range, shift / overwrite strategy) -/
+theorem skeleton_insert :
+    Gen.push_backSk = Skeleton.push_backSk ∧ Gen.emplace_backSk = Skeleton.emplace_backSk ∧
+    Gen.appendSk = Skeleton.appendSk ∧ Gen.insertSk = Skeleton.insertSk := by
+  repeat' constructor
+
+/-- `resize`, `reserve`, `grow(n)`, `grow()` -/
+theorem skeleton_resize :
+    Gen.resizeSk = Skeleton.resizeSk ∧ Gen.reserveSk = Skeleton.reserveSk ∧
+    Gen.growNSk = Skeleton.growNSk ∧ Gen.growSk = Skeleton.growSk := by
+  repeat' constructor
+
+/-- the inline accessors of the header -/
+theorem skeleton_accessors :
+    Gen.indexConstSk = Skeleton.indexConstSk ∧ Gen.indexSk = Skeleton.indexSk ∧
+    Gen.dataSk = Skeleton.dataSk ∧ Gen.dataConstSk = Skeleton.dataConstSk ∧
+    Gen.beginSk = Skeleton.beginSk ∧ Gen.endSk = Skeleton.endSk ∧
+    Gen.cbeginSk = Skeleton.cbeginSk ∧ Gen.cendSk = Skeleton.cendSk ∧
+    Gen.beginConstSk = Skeleton.beginConstSk ∧ Gen.endConstSk = Skeleton.endConstSk ∧
+    Gen.rbeginSk = Skeleton.rbeginSk ∧ Gen.rendSk = Skeleton.rendSk ∧
+    Gen.rbeginConstSk = Skeleton.rbeginConstSk ∧ Gen.rendConstSk = Skeleton.rendConstSk ∧
+    Gen.sizeSk = Skeleton.sizeSk ∧ Gen.capacitySk = Skeleton.capacitySk ∧
+    Gen.max_sizeSk = Skeleton.max_sizeSk ∧ Gen.emptySk = Skeleton.emptySk ∧
+    Gen.frontSk = Skeleton.frontSk ∧ Gen.frontConstSk = Skeleton.frontConstSk ∧
+    Gen.backSk = Skeleton.backSk ∧ Gen.backConstSk = Skeleton.backConstSk ∧
+    Gen.local_storage_usedSk = Skeleton.local_storage_usedSk := by
+  repeat' constructor
+
+/-- the free functions: `destroy_range`, `uninitialized_copy/move` and the six relational operators
+    (`==` is `size() == size() && std::equal`, i.e. the element-wise `T::operator==`) -/
+theorem skeleton_free_functions :
+    Gen.destroy_rangeSk = Skeleton.destroy_rangeSk ∧
+    Gen.uninitialized_copySk = Skeleton.uninitialized_copySk ∧
+    Gen.uninitialized_moveSk = Skeleton.uninitialized_moveSk ∧
+    Gen.opEqSk = Skeleton.opEqSk ∧ Gen.opNeSk = Skeleton.opNeSk ∧
+    Gen.opLtSk = Skeleton.opLtSk ∧ Gen.opGtSk = Skeleton.opGtSk ∧
+    Gen.opGeSk = Skeleton.opGeSk ∧ Gen.opLeSk = Skeleton.opLeSk := by
+  repeat' constructor
+
+/-- For `resize` the link between the extracted skeleton and the model is semantic: the skeleton
+    read from the AST, executed with the statement meanings `resizeSem` (each condition / call mapped
+    to a storage primitive), IS the model's `resize` — for every state and every `n`. -/
+theorem resize_skeleton_denotes_model (c : Cfg α) (n : Nat) (s : SV α) :
+    execL (resizeSem c n) Gen.resizeSk s = resize c s n := by
+  have h : Gen.resizeSk = Skeleton.resizeSk := by rfl
+  rw [h]; exact resize_denotes_aux c n s
+
+/-- call-site layer: every small_vector member (constructor, operator) that some translation unit of
+    the library uses — through fitness_t (`small_vector<double,1>`), the gene argument vectors
+    (`small_vector<locus,K>`, `small_vector<packed_index_t,K>`) or the offspring vectors of
+    evolution_recombination.h (`small_vector<T,1>`) — is covered by the model -/
+theorem users_covered : ∀ m ∈ Gen.usedKeys, m ∈ Skeleton.covered.map Prod.fst := by decide
 
 /-! ### the statements are not vacuous -/
 
